@@ -15,6 +15,7 @@ import Cnl2aspModel.Compiler.Temporal
 import Cnl2aspModel.Compiler.Surface
 import Cnl2aspModel.Compiler.Scope
 import Cnl2aspModel.Compiler.Explain
+import Cnl2aspModel.Compiler.ExplainSentence
 import Cnl2aspModel.Compiler.Link
 import Cnl2aspModel.Compiler.Value
 import Cnl2aspModel.Cnl.Codec
@@ -394,6 +395,36 @@ def print (j : Json) : Json :=
 
 end C06P
 
+namespace C15S
+open ExplainS Ops
+
+def parseAttr (j : Json) : Attr :=
+  let origin : Option Link.Chain := match j.getObjVal? "origin" with
+    | .ok (Json.arr a) => if a.isEmpty then none else some (a.toList.filterMap fun x => x.getStr?.toOption)
+    | _ => none
+  ⟨jstr j "name", jstr j "value", origin, jstr j "label"⟩
+
+def parseEnt (j : Json) : Ent :=
+  ⟨jstr j "name", (C06P.jarr j "keys").map parseAttr, (C06P.jarr j "attrs").map parseAttr⟩
+
+/-- one explanation sentence: the text, the values it mentions part by part, and the hypothesis of the mention theorem -/
+def run (j : Json) : Json :=
+  let pairs : List (String × String) := (C06P.jarr j "eqpairs").filterMap fun p => match p with
+    | Json.arr #[Json.str x, Json.str y] => some (x, y)
+    | _ => none
+  let ne : NameEq := fun x y => x == y || pairs.contains (x, y)
+  let entity := parseEnt ((j.getObjVal? "entity").toOption.getD Json.null)
+  let subject : Option Ent := match j.getObjVal? "subject" with
+    | .ok s@(Json.obj _) => some (parseEnt s)
+    | _ => none
+  let objects := (C06P.jarr j "objects").map parseEnt
+  let args := jstrs j "args"
+  Json.mkObj [("sentence", Json.str (sentence ne entity subject (jstr j "verb") objects args)),
+              ("mentioned", Json.arr ((mentioned ne entity subject objects args).map Json.str).toArray),
+              ("nocross", Json.bool (noCrossB ne (parseSymbol entity args)))]
+
+end C15S
+
 def dispatch (op : String) (j : Json) : Json :=
   match op with
   | "c16.values" => Ops.c16values j
@@ -411,6 +442,7 @@ def dispatch (op : String) (j : Json) : Json :=
   | "c09.keys" => Ops.c09keys j
   | "c17.check" => Ops.C17.run j
   | "c15.printer" => Ops.c15printer j
+  | "c15.sentence" => C15S.run j
   | "c06.value" => Ops.c06value j
   | "c06.print" => C06P.print j
   | "c01.compile" => Core.Codec.compileOp j
